@@ -1,14 +1,166 @@
-(* Props/C15.v -- property C15 (provisional: full set of theorems is being added) *)
-From Coq Require Import NArith List.
-From RP Require Import Base.Bits Model.Codec Gen.GenAbstract.
+(* Props/C15.v -- property C15: the integer codecs are lossless.
+   Statements use only Base/ Model/ Gen/ Spec/ definitions; proofs live in Proofs/. *)
+From Coq Require Import NArith ZArith List Bool Sorted.
+From RP Require Import Base.Bits Gen.GenAbstract Model.Codec Spec.SpecCodec.
+From RP Require Proofs.BitsLemmas Proofs.C15_Finite Proofs.C15_Hand Proofs.C15_Action
+                Proofs.C15_Path Proofs.C15_Examples.
 Import ListNotations.
 Open Scope N_scope.
 
-Definition all_edges0 : list edge := [EDraw; EFold; ECheck; ECall; EShove] ++ map (fun p => ERaise (fst p) (snd p)) GRID.
-Definition edge_rt (e : edge) : bool :=
-  match edge_to_u8 e with
-  | Some c => match edge_of_u8 c with Some e' => match edge_to_u8 e' with Some c' => N.eqb c c' | None => false end | None => false end
-  | None => false end.
-Theorem C15_edge_u8_codes_provisional : forallb edge_rt all_edges0 = true.
-Proof. vm_compute. reflexivity. Qed.
-Print Assumptions C15_edge_u8_codes_provisional.
+(* ---------- 1. Card <-> u32 ---------- *)
+Theorem C15_card_u32 : forall c, c < 52 ->
+  exists u, card_to_u32 c = Some u /\ card_of_u32 u = Some c.
+Proof. exact C15_Finite.card_u32. Qed.
+Print Assumptions C15_card_u32.
+Example C15_card_u32_hyp : 51 < 52.
+Proof. exact C15_Examples.ex_card. Qed.
+
+(* ---------- 2. Hand <-> u64, Hand <-> Vec<Card> ---------- *)
+Theorem C15_hand_u64 : forall d h, N.land h (hand_mask d) = h -> hand_of_u64 d (hand_to_u64 h) = h.
+Proof. exact C15_Hand.hand_u64. Qed.
+Print Assumptions C15_hand_u64.
+Example C15_hand_u64_hyp :
+  N.land C15_Examples.ex_hand_short (hand_mask Short) = C15_Examples.ex_hand_short.
+Proof. exact C15_Examples.ex_hand_short_ok. Qed.
+
+Theorem C15_hand_cards : forall h, h < 2 ^ 64 -> hand_of_cards (hand_cards h) = Some h.
+Proof. exact C15_Hand.hand_cards_roundtrip. Qed.
+Print Assumptions C15_hand_cards.
+Example C15_hand_cards_hyp : 2 ^ 63 + 5 < 2 ^ 64.
+Proof. exact C15_Examples.ex_hand64. Qed.
+
+Theorem C15_hand_cards_spec : forall h i, h < 2 ^ 64 ->
+  (In i (hand_cards h) <-> N.testbit h i = true).
+Proof. exact C15_Hand.hand_cards_spec. Qed.
+Print Assumptions C15_hand_cards_spec.
+
+Theorem C15_hand_cards_sorted : forall h, StronglySorted N.lt (hand_cards h).
+Proof. exact C15_Hand.hand_cards_sorted. Qed.
+Print Assumptions C15_hand_cards_sorted.
+
+Theorem C15_hand_cards_lt64 : forall h, Forall (fun c => c < 64) (hand_cards h).
+Proof. exact C15_Hand.hand_cards_lt64. Qed.
+Print Assumptions C15_hand_cards_lt64.
+
+Theorem C15_hand_size_length : forall h, hand_size h = N.of_nat (length (hand_cards h)).
+Proof. exact C15_Hand.hand_size_length. Qed.
+Print Assumptions C15_hand_size_length.
+
+(* ---------- 3. Observation <-> i64 ---------- *)
+Theorem C15_obs_i64 : forall o, wf_obs o -> obs_of_i64 (obs_to_i64 o) = Some o.
+Proof. exact C15_Hand.obs_i64. Qed.
+Print Assumptions C15_obs_i64.
+Example C15_obs_i64_hyp : wf_obs C15_Examples.ex_obs /\ wf_obs C15_Examples.ex_obs0.
+Proof. exact (conj C15_Examples.ex_obs_wf C15_Examples.ex_obs0_wf). Qed.
+
+Theorem C15_obs_street : forall o, wf_obs o ->
+  street_of_obs_code (obs_to_i64 o) = obs_street o /\ obs_street o <> None.
+Proof. exact C15_Hand.obs_street_code. Qed.
+Print Assumptions C15_obs_street.
+
+Theorem C15_obs_inj : forall o1 o2, wf_obs o1 -> wf_obs o2 ->
+  obs_to_i64 o1 = obs_to_i64 o2 -> o1 = o2.
+Proof. exact C15_Hand.obs_inj. Qed.
+Print Assumptions C15_obs_inj.
+
+(* ---------- 4. Action <-> u32 ---------- *)
+Theorem C15_action_u32 : forall a, wf_action a -> action_of_u32 (action_to_u32 a) = Some a.
+Proof. exact C15_Action.action_u32. Qed.
+Print Assumptions C15_action_u32.
+Example C15_action_u32_hyp :
+  wf_action (Raise (-32768)) /\ wf_action (Blind 32767) /\ wf_action (Draw (2 ^ 51 + 2 ^ 50 + 1)).
+Proof.
+  exact (conj C15_Examples.ex_action_raise_wf
+           (conj C15_Examples.ex_action_blind_wf C15_Examples.ex_action_draw_wf)).
+Qed.
+
+Theorem C15_action_inj : forall a1 a2, wf_action a1 -> wf_action a2 ->
+  action_to_u32 a1 = action_to_u32 a2 -> a1 = a2.
+Proof. exact C15_Action.action_inj. Qed.
+Print Assumptions C15_action_inj.
+
+(* ---------- 5. Edge <-> u8 / u64 ---------- *)
+Theorem C15_edge_u8 : forall e, In e all_edges ->
+  exists c, edge_to_u8 e = Some c /\ 1 <= c <= 15 /\ edge_of_u8 c = Some e.
+Proof. exact C15_Finite.edge_u8. Qed.
+Print Assumptions C15_edge_u8.
+Example C15_edge_hyp : In (ERaise 4 1) all_edges.
+Proof. exact C15_Examples.ex_edge_in. Qed.
+
+Theorem C15_edge_u64 : forall e, In e all_edges -> edge_of_u64 (edge_to_u64 e) = Some e.
+Proof. exact C15_Finite.edge_u64. Qed.
+Print Assumptions C15_edge_u64.
+
+Theorem C15_edge_u8_inj : forall e1 e2, In e1 all_edges -> In e2 all_edges ->
+  edge_to_u8 e1 = edge_to_u8 e2 -> e1 = e2.
+Proof. exact C15_Finite.edge_u8_inj. Qed.
+Print Assumptions C15_edge_u8_inj.
+
+Theorem C15_edge_u64_inj : forall e1 e2, In e1 all_edges -> In e2 all_edges ->
+  edge_to_u64 e1 = edge_to_u64 e2 -> e1 = e2.
+Proof. exact C15_Finite.edge_u64_inj. Qed.
+Print Assumptions C15_edge_u64_inj.
+
+(* ---------- 6. Path <-> Vec<Edge> ---------- *)
+Theorem C15_path : forall es, (length es <= 16)%nat -> Forall (fun e => In e all_edges) es ->
+  exists p, path_pack es = Some p /\ p < 2 ^ 64 /\ path_unpack p = Some es.
+Proof. exact C15_Path.path_roundtrip. Qed.
+Print Assumptions C15_path.
+Example C15_path_hyp :
+  (length C15_Examples.ex_path <= 16)%nat /\ Forall (fun e => In e all_edges) C15_Examples.ex_path.
+Proof. exact (conj C15_Examples.ex_path_len C15_Examples.ex_path_in). Qed.
+
+Theorem C15_path_inj : forall es1 es2,
+  (length es1 <= 16)%nat -> Forall (fun e => In e all_edges) es1 ->
+  (length es2 <= 16)%nat -> Forall (fun e => In e all_edges) es2 ->
+  path_pack es1 = path_pack es2 -> es1 = es2.
+Proof. exact C15_Path.path_inj. Qed.
+Print Assumptions C15_path_inj.
+
+(* ---------- 7. Abstraction <-> u64 / i64 ---------- *)
+Theorem C15_abs : forall s i, s <= 3 -> i < 4096 ->
+  exists a, abs_make s i = Some a /\ abs_of_u64 (abs_to_u64 a) = Some a /\
+            abs_of_i64 (abs_to_i64 a) = Some a /\ abs_street a = Some s /\ abs_index a = i.
+Proof. exact C15_Finite.abs_roundtrip. Qed.
+Print Assumptions C15_abs.
+Example C15_abs_hyp : 2 <= 3 /\ 4095 < 4096.
+Proof. exact C15_Examples.ex_abs. Qed.
+
+Theorem C15_abs_inj : forall s i s' i', s <= 3 -> s' <= 3 -> i < 4096 -> i' < 4096 ->
+  abs_make s i = abs_make s' i' -> s = s' /\ i = i'.
+Proof. exact C15_Finite.abs_make_inj. Qed.
+Print Assumptions C15_abs_inj.
+
+(* ---------- 8. Pair keys ---------- *)
+(* [N.to_nat 23474] is the nat 23474 (convertible with the literal [23474%nat], written this
+   way to avoid a large unary numeral in the source). *)
+Theorem C15_pair_keys :
+  NoDup learned_pair_keys /\ ~ In 0 learned_pair_keys /\
+  length learned_pair_keys = N.to_nat 23474.
+Proof. exact C15_Finite.pair_keys_nat. Qed.
+Print Assumptions C15_pair_keys.
+
+Theorem C15_pair_keys_N :
+  NoDup learned_pair_keys /\ ~ In 0 learned_pair_keys /\
+  N.of_nat (length learned_pair_keys) = 23474.
+Proof. exact C15_Finite.pair_keys. Qed.
+Print Assumptions C15_pair_keys_N.
+
+(* ---------- reusable bit-level facts (Base/Bits.v) ---------- *)
+Theorem C15_popcount64_length : forall h, popcount64 h = N.of_nat (length (set_bits64 h)).
+Proof. exact BitsLemmas.popcount64_length. Qed.
+Print Assumptions C15_popcount64_length.
+
+Theorem C15_mask_of_set_bits64 : forall h, h < 2 ^ 64 -> mask_of_bits (set_bits64 h) = h.
+Proof. exact BitsLemmas.mask_of_set_bits64. Qed.
+Print Assumptions C15_mask_of_set_bits64.
+
+Theorem C15_set_bits64_spec : forall h i, h < 2 ^ 64 ->
+  (In i (set_bits64 h) <-> N.testbit h i = true).
+Proof. exact BitsLemmas.set_bits64_spec. Qed.
+Print Assumptions C15_set_bits64_spec.
+
+Theorem C15_tz64_spec : forall x, x < 2 ^ 64 -> x <> 0 ->
+  tz64 x < 64 /\ N.testbit x (tz64 x) = true /\ (forall j, j < tz64 x -> N.testbit x j = false).
+Proof. exact BitsLemmas.tz64_spec. Qed.
+Print Assumptions C15_tz64_spec.
